@@ -29,6 +29,17 @@ def sv_sources(limit=None):
             res.append(("lib", text))
     return res[:limit] if limit else res
 
+# programs with `begin_keywords regions that span several top-level descriptions and use, as identifiers, words
+# reserved only in later standards (shared by the checks that compare runs of the parser: C12, C15)
+KW_REGIONS = [
+    '`begin_keywords "1364-2001"\nmodule a; wire logic; endmodule\nmodule b; reg bit, final; endmodule\nmodule c; wire x; endmodule\n`end_keywords\nmodule d; logic x; endmodule\n',
+    '`begin_keywords "1364-1995"\nmodule a(do, final); input do; output final; endmodule\nmodule b; reg signed; wire logic; endmodule\n`end_keywords\n',
+    'module z; endmodule\n`begin_keywords "1800-2005"\nmodule a; wire checker; endmodule\nmodule b; wire implements; endmodule\n`end_keywords\nmodule c; endmodule\n',
+    '`begin_keywords "1364-2001-noconfig"\nmodule a; wire config, design; endmodule\nmodule b; wire library; endmodule\n`end_keywords\n',
+    '`begin_keywords "1800-2009"\n`begin_keywords "1364-2001"\nmodule a; wire priority; endmodule\n`end_keywords\nmodule b; wire implements, soft; endmodule\nmodule c; endmodule\n`end_keywords\n',
+]
+
+
 if __name__ == "__main__":
     r = read()
     print(len(r), len(sv_sources()))
